@@ -26,7 +26,8 @@ def main():
                 hist.append("%s %s: %s" % (c, r.get("tier"), "caught" if r.get("caught") else "missed"))
         conf = "yes" if v.get("confirmed") else "no"
         rows.append("| %s | %s | %s | %s | %s | %s |" % (name, files, what.replace("|", "/"), conf, "; ".join(res) or "-",
-                                                         ("earlier: " + "; ".join(hist)) if hist else ""))
+                                                         " ".join(x for x in [("earlier: " + "; ".join(hist)) if hist else "",
+                                                                              " ".join(str(m.get("note", "")).split()).replace("|", "/")] if x)))
     out = ["# Independently seeded property-breaking changes", "",
            "Each change was written by an agent that saw only the property text and a scratch worktree; `confirmed` = the demo passes on "
            "the clean tree, fails with the patch, and the pinned suite still reports 86 passed.  The last column keeps the result of "
